@@ -65,7 +65,75 @@ def run_corr(cfg):
             "Tt": sorted([int(a), int(b), C.dy(v)] for a, b, v in zip(tt.row, tt.col, tt.data) if v != 0),
             "Tr": sorted([int(a), int(b), C.dy(v)] for a, b, v in zip(tr.row, tr.col, tr.data) if v != 0),
         })
+    out["lcases"] = run_level1(rng, cfg.get("strength", "quick"))
     return out
+
+
+def full_counterpart(grid, kind, sw=None):
+    """The full-grid element-wise space with the same shapeset: unit multipliers, local2global = ns*e + i."""
+    import bempp_cl.api as api
+    opts = {"swapped_normals": sw} if sw else {}
+    if kind in ("DP0", "DP1", "P1"):
+        sp = C.make_space(grid, "DP0" if kind == "DP0" else "DP1", opts)
+    else:
+        sp = C.make_space(grid, kind, opts).localised_space
+        # the operator factories accept only identifier "rwg0"/"snc0"; the localised space is the same space type
+        sp._identifier = {"RWG": "rwg0", "SNC": "snc0"}[kind]
+    ns = sp.number_of_shape_functions
+    nel = grid.number_of_elements
+    assert np.array_equal(sp.local2global, np.arange(ns * nel).reshape(nel, ns)) and np.all(sp.local_multipliers == 1)
+    return sp
+
+
+def assembler_table(api):
+    """One operator per Numba assembly type (regular + singular function each): name, factory, trial kind, test kind."""
+    b = api.operators.boundary
+    return [
+        ("default_scalar", lambda d, t: b.laplace.double_layer(d, d, t, assembler="dense"), "P1", "DP1"),
+        ("laplace_hypersingular", lambda d, t: b.laplace.hypersingular(d, d, t, assembler="dense"), "P1", "P1"),
+        ("helmholtz_hypersingular", lambda d, t: b.helmholtz.hypersingular(d, d, t, 1.3, assembler="dense"), "P1", "P1"),
+        ("modified_helmholtz_hypersingular",
+         lambda d, t: b.modified_helmholtz.hypersingular(d, d, t, 0.7, assembler="dense"), "P1", "P1"),
+        ("maxwell_electric_field", lambda d, t: b.maxwell.electric_field(d, d, t, 1.1, assembler="dense"), "RWG", "SNC"),
+        ("maxwell_magnetic_field", lambda d, t: b.maxwell.magnetic_field(d, d, t, 1.1, assembler="dense"), "RWG", "SNC"),
+    ]
+
+
+def run_level1(rng, strength):
+    """Every regular/singular assembler kernel (py_func + surrogate kernel) on restricted spaces with non-prefix supports
+    and non-unit multipliers on both sides, and on the full element-wise spaces (source of the local values)."""
+    import bempp_cl.api as api
+    cases = []
+    grids = ["screen22", "cube", "octa3", "twocomp"] if strength != "quick" else ["screen22", "cube"]
+    reps = 1 if strength == "quick" else 3
+    for ai, (aname, mk, dk, tk) in enumerate(assembler_table(api)):
+        for gi, gname in enumerate(grids):
+            for rep in range(reps):
+                grid = C.make_grid(gname, rng, distorted=True)
+                dopt, sd = C.designed_opts(grid, dk, rng)
+                topt, st = C.designed_opts(grid, tk, rng, avoid=sd.support, partner=sd.support)
+                kern = (ai + gi + rep) % 2
+                C.set_orders(int(1 + (ai + gi) % 3), 1 if (ai + gi + rep) % 3 else 2)
+                fd, ft = full_counterpart(grid, dk), full_counterpart(grid, tk)
+                with C.Patched(kern) as p:
+                    a_s = mk(sd, st).weak_form().to_dense()
+                    a_d = mk(fd, ft).weak_form().to_dense()
+                used = sorted(set(p.used))
+                parts = [("re", np.real(a_s), np.real(a_d))]
+                if np.iscomplexobj(a_s) and float(np.abs(np.imag(a_d)).max()) > 0:
+                    parts.append(("im", np.imag(a_s), np.imag(a_d)))
+                g = C.dump_grid(grid)
+                for k in ("v0", "jac", "jit", "normal", "intel", "vol"):
+                    g[k] = []
+                for pname, ms, md in parts:
+                    cases.append({
+                        "spec": {"assembler": aname, "functions": used, "grid": gname, "test": [tk, topt],
+                                 "trial": [dk, dopt], "kernel": kern, "part": pname},
+                        "grid": g, "test": C.dump_space(st, tk), "trial": C.dump_space(sd, dk),
+                        "AD": C.dump_matrix(md), "rows": int(ms.shape[0]), "cols": int(ms.shape[1]),
+                        "matrix": C.dump_matrix(ms), "tol": C.dy(max(1e-11 * float(np.abs(md).max()), 1e-14)),
+                        "maxabs": float(np.abs(ms).max())})
+    return cases
 
 
 # ---------------------------------------------------------------------------------------------------------------
@@ -113,48 +181,96 @@ def kinds_for(name):
     return ["DP0", "DP1", "P1"], ["DP0", "DP1", "P1"]
 
 
-def full_counterpart(grid, kind, space):
-    """The full-grid element-wise space with the same shapeset and the same normal multipliers."""
-    import bempp_cl.api as api
-    if kind in ("DP0", "DP1", "P1"):
-        k, d = ("DP", 0) if kind == "DP0" else ("DP", 1)
-        return api.function_space(grid, k, d)
-    loc = C.make_space(grid, kind, {}).localised_space
-    # the operator factories accept only identifier "rwg0"/"snc0"; the localised space is the same space type
-    loc._identifier = {"RWG": "rwg0", "SNC": "snc0"}[kind]
-    return loc
+def congruence_error(api, mk, grid, dkind, dopt, tkind, topt):
+    """|| A_S - T' A_D T || / max(||A_D||, floor) for one operator and one pair of restricted spaces (None: no DOFs)."""
+    sd = C.make_space(grid, dkind, dopt)
+    stt = C.make_space(grid, tkind, topt)
+    if not (C.space_has_dofs(sd) and C.space_has_dofs(stt)):
+        return None
+    sw = dopt.get("swapped_normals")
+    fd, ft = full_counterpart(grid, dkind, sw), full_counterpart(grid, tkind, sw)
+    a_s = np.asarray(mk(sd, stt).weak_form().to_dense())
+    a_d = np.asarray(mk(fd, ft).weak_form().to_dense())
+    tt = stt.map_to_full_grid.toarray()
+    td = sd.map_to_full_grid.toarray()
+    if sd.requires_dof_transformation:
+        td = td @ sd.dof_transformation.toarray()
+    if stt.requires_dof_transformation:
+        tt = tt @ stt.dof_transformation.toarray()
+    ref = tt.T @ a_d @ td
+    return float(np.abs(a_s - ref).max()) / max(float(np.abs(a_d).max()), 1e-4)
 
 
 def run_search(cfg):
+    """Deterministic coverage: EVERY operator (all three hypersingular operators, both Maxwell operators, all scalar
+    operators of the three families, identity, Laplace-Beltrami) is run at least once per check with a non-prefix,
+    non-unit-multiplier segment/support on the trial side and a different one on the test side.  quick: the Numba
+    assembler loops run through .py_func with the library's own Green's functions on 8-element grids (no JIT);
+    thorough: compiled code, more grids and random selections."""
     import bempp_cl.api as api
     seed = int(os.environ.get("VERIF_SEED", "0"))
     rng = np.random.default_rng(seed + 4104)
     strength = cfg.get("strength", "quick")
-    fams = cfg.get("families") or FAMILIES
-    out = {"evaluations": 0, "failures": [], "worst": {}, "skipped": 0, "families": fams}
-    grids = ["octa", "screen22", "tetra", "twocomp", "octa3", "cube"]
-    per_op = 3 if strength == "quick" else 14
+    quick = strength == "quick"
+    fams = FAMILIES
+    out = {"evaluations": 0, "failures": [], "worst": {}, "skipped": 0, "families": fams, "operators_run": [],
+           "py_func_mode": quick}
     t0 = time.time()
     budget = float(cfg.get("budget", 1e9))
     allops = [(fam, nm, mk) for fam in fams for nm, mk in operators_of(fam, api)]
-    if strength == "quick":
-        # quick: operators in a seed-rotated order until the wall budget is used up (first each family once)
-        allops = allops[seed % len(allops):] + allops[:seed % len(allops)]
-        firsts, rest, seenf = [], [], set()
-        for o in allops:
-            (rest if o[0] in seenf else firsts).append(o)
-            seenf.add(o[0])
-        allops = firsts + rest
-    out["operators_run"] = []
+    designed_grids = ["screen22", "cube"] if quick else ["screen22", "cube", "octa3", "twocomp"]
+    random_grids = ["octa", "screen22", "tetra", "twocomp", "octa3", "cube"]
+    nrandom = 0 if quick else 6
+
+    def one(name, mk, grid, gname, dkind, dopt, tkind, topt, label):
+        try:
+            with np.errstate(all="ignore"):
+                err = congruence_error(api, mk, grid, dkind, dopt, tkind, topt)
+        except Exception as e:
+            out["failures"].append({"signature": "C04:%s raises %s" % (name, type(e).__name__),
+                                    "what": "%s on %s/%s %s %s raised %r" % (name, tkind, dkind, topt, dopt, e),
+                                    "data": {"op": name, "grid": gname, "test": [tkind, topt], "trial": [dkind, dopt]}})
+            return
+        if err is None:
+            out["skipped"] += 1
+            return
+        out["worst"][name] = max(out["worst"].get(name, 0.0), err)
+        out["evaluations"] += 1
+        if not err <= 1e-12:
+            out["failures"].append({
+                "signature": "C04:congruence %s test=%s trial=%s" % (name, tkind, dkind),
+                "what": "A_S differs from T' A_D T by %.3e (relative to max|A_D|) for %s (%s)" % (err, name, label),
+                "data": {"op": name, "grid": gname, "test": [tkind, topt], "trial": [dkind, dopt], "err": err}})
+
     if True:
         for fam, name, mk in allops:
-            if time.time() - t0 > budget and out["operators_run"]:
+            if time.time() - t0 > budget and not quick:
                 break
             out["operators_run"].append(name)
             dk, tk = kinds_for(name)
-            worst = 0.0
-            for rep in range(per_op):
-                gname = grids[(rep + len(name)) % len(grids)] if strength == "quick" else str(rng.choice(grids))
+            for gi, gname in enumerate(designed_grids):
+                grid = C.make_grid(gname, rng, distorted=True)
+                # trial side P1 (scalar / hypersingular / sparse) or RWG (Maxwell); test side the matching kind
+                dkind = "RWG" if fam == "maxwell" else "P1"
+                tkind = "SNC" if fam == "maxwell" else ("P1" if "P1" in (tk or dk) and (gi % 2 == 0 or len(tk or dk) == 1)
+                                                        else (tk or dk)[gi % len(tk or dk)])
+                if name == "sparse.identity" and gi % 2:
+                    dkind, tkind = "RWG", "SNC"
+                C.set_orders(int(2 + (gi + len(name)) % 3), int(2 + (gi + len(name)) % 2) if quick else 4)
+                try:
+                    dopt, sd = C.designed_opts(grid, dkind, rng)
+                    topt, st = C.designed_opts(grid, tkind, rng, avoid=sd.support, partner=sd.support)
+                except RuntimeError:
+                    out["skipped"] += 1
+                    continue
+                if name.startswith("sparse") and not np.any(sd.support & st.support):
+                    topt = dict(topt)
+                    topt.pop("segments", None)
+                    topt["support_elements"] = sorted(set(int(x) for x in np.flatnonzero(st.support)) |
+                                                      {int(np.flatnonzero(sd.support)[0])})
+                one(name, mk, grid, gname, dkind, dopt, tkind, topt, "designed non-prefix supports")
+            for rep in range(nrandom):
+                gname = str(rng.choice(random_grids))
                 grid = C.make_grid(gname, rng, distorted=bool(rng.integers(0, 2)))
                 dkind = str(rng.choice(dk))
                 if tk is None:
@@ -163,62 +279,28 @@ def run_search(cfg):
                     tkind = str(rng.choice(tk))
                 dopt = C.random_space_opts(grid, dkind, rng)
                 topt = C.random_space_opts(grid, tkind, rng)
-                # swapped normals must agree between S and its full counterpart: drop them for edge spaces
-                if C.SHAPE_ID[dkind] == 2:
+                if C.SHAPE_ID[dkind] == 2 or C.SHAPE_ID[tkind] == 2:
                     dopt.pop("swapped_normals", None)
-                if C.SHAPE_ID[tkind] == 2:
                     topt.pop("swapped_normals", None)
-                if "swapped_normals" in dopt or "swapped_normals" in topt:
-                    # the normal direction is part of the operator: both sides of the relation use the same flag
-                    sw = dopt.get("swapped_normals") or topt.get("swapped_normals")
+                sw = dopt.get("swapped_normals") or topt.get("swapped_normals")
+                if sw:      # the normal direction is part of the operator: both sides of the relation use the same flag
                     dopt["swapped_normals"] = sw
                     topt["swapped_normals"] = sw
+                if name.startswith("sparse"):
+                    try:
+                        if not np.any(C.make_space(grid, dkind, dopt).support & C.make_space(grid, tkind, topt).support):
+                            out["skipped"] += 1
+                            continue
+                    except Exception:
+                        out["skipped"] += 1
+                        continue
+                C.set_orders(int(rng.integers(2, 5)), int(rng.integers(2, 5)))
                 try:
-                    sd = C.make_space(grid, dkind, dopt)
-                    stt = C.make_space(grid, tkind, topt)
+                    C.make_space(grid, dkind, dopt), C.make_space(grid, tkind, topt)
                 except Exception:
                     out["skipped"] += 1
                     continue
-                if not (C.space_has_dofs(sd) and C.space_has_dofs(stt)):
-                    out["skipped"] += 1
-                    continue
-                if name.startswith("sparse") and not np.any(sd.support & stt.support):
-                    out["skipped"] += 1
-                    continue
-                sw = dopt.get("swapped_normals")
-                fd = (C.make_space(grid, "DP0" if dkind == "DP0" else "DP1", {"swapped_normals": sw})
-                      if C.SHAPE_ID[dkind] != 2 else full_counterpart(grid, dkind, sd))
-                ft = (C.make_space(grid, "DP0" if tkind == "DP0" else "DP1", {"swapped_normals": sw})
-                      if C.SHAPE_ID[tkind] != 2 else full_counterpart(grid, tkind, stt))
-                C.set_orders(int(rng.integers(2, 5)), int(rng.integers(2, 5)))
-                try:
-                    a_s = mk(sd, stt).weak_form()
-                    a_d = mk(fd, ft).weak_form()
-                except Exception as e:
-                    out["failures"].append({"signature": "C04:%s raises %s" % (name, type(e).__name__),
-                                            "what": "%s on %s/%s %s %s raised %r" % (name, tkind, dkind, topt, dopt, e),
-                                            "data": {"op": name, "grid": gname, "test": [tkind, topt],
-                                                     "trial": [dkind, dopt]}})
-                    continue
-                a_s = a_s.to_dense() if hasattr(a_s, "to_dense") else np.asarray(a_s.to_sparse().todense())
-                a_d = a_d.to_dense() if hasattr(a_d, "to_dense") else np.asarray(a_d.to_sparse().todense())
-                tt = stt.map_to_full_grid.toarray()
-                td = sd.map_to_full_grid.toarray()
-                if sd.requires_dof_transformation:
-                    td = td @ sd.dof_transformation.toarray()
-                if stt.requires_dof_transformation:
-                    tt = tt @ stt.dof_transformation.toarray()
-                ref = tt.T @ a_d @ td
-                err = float(np.abs(a_s - ref).max()) / max(float(np.abs(a_d).max()), 1e-4)
-                worst = max(worst, err)
-                out["evaluations"] += 1
-                if not err <= 1e-12:
-                    out["failures"].append({
-                        "signature": "C04:congruence %s test=%s trial=%s" % (name, tkind, dkind),
-                        "what": "A_S differs from T' A_D T by %.3e (relative to max|A_D|) for %s" % (err, name),
-                        "data": {"op": name, "grid": gname, "test": [tkind, topt], "trial": [dkind, dopt],
-                                 "err": err}})
-            out["worst"][name] = worst
+                one(name, mk, grid, gname, dkind, dopt, tkind, topt, "random selection")
     # DP segment spaces are sub-blocks: exact equality of entries
     grid = C.make_grid("octa3", rng, True)
     C.set_orders(3, 3)
@@ -328,7 +410,10 @@ def main():
         out["corr"] = run_corr(cfg)
         out["corr"]["wall"] = time.time() - t
     if mode in ("search", "both"):
-        out["search"] = run_search(cfg)
+        quick = cfg.get("strength", "quick") == "quick"
+        # quick: Numba assembler loops / sparse kernels through .py_func with the library's own Green's functions
+        with C.PyFuncMode(quick), C.Patched(None, jit=not quick):
+            out["search"] = run_search(cfg)
     C.emit(out)
 
 
